@@ -198,7 +198,7 @@ def run(prog: Program, rep: Report, tier: str = "quick") -> None:
     seen = set()
     for lst in results:
         for d in lst:
-            key = (d["rule"], d["verdict"], d["module"], d["function"], d["construct"], d.get("message", ""))
+            key = (d["rule"], d["verdict"], d["module"], d["function"], d["construct"], d.get("message", ""), d.get("model", ""))
             if d["rule"] in ("R13.1", "R13.2", "R13.2s", "R13.4") and key in seen:
                 continue
             seen.add(key)
